@@ -16,7 +16,10 @@ PROPERTY = "C10"
 RULE = (
     "cases = (logits [B,N] from lattice/gaussian/huge/tie-heavy/dominant families, mask with >=1 True "
     "per row incl. single-feasible and top-candidates-masked rows, temperature in [1e-3,1e3], top_k in "
-    "0..N+3, top_p in [0,1] incl. 0,1,1e-12,1-1e-7, tanh clipping 0 or [0.1,50], float32/float64). "
+    "0..N+3, top_p in [0,1] incl. 0,1,1e-12,1-1e-7, tanh clipping 0 or [0.1,50], float32/float64/float16/bfloat16, masking "
+    "route mask+mask_logits=True | mask=None+mask_logits=False | mask given but mask_logits=False [both: bit-equal to "
+    "the all-True-mask result; greedy/sampling with mask=None; sampling(unmasked log-probs, mask) must resample to a "
+    "feasible action]). "
     "Non-trivial = filtering removed >=1 feasible entry, or fewer feasible entries than k, or an exact tie "
     "at the maximum / at the top-k cut; distinct = distinct case hash."
 )
@@ -25,6 +28,11 @@ ASSUMPTIONS = [
     "every mask row has at least one True entry",
     "shift invariance asserted with tanh clipping off (tanh(x+c) is not shift invariant by construction)",
     "when top-k and top-p are both on, nucleus mass is measured against the distribution entering the top-p stage",
+    "half precision: values rounded to the dtype at construction; tolerances 4*eps of the dtype (float16 2^-10, bfloat16 "
+    "2^-7), nucleus mass additionally N*eps (the filter's cumulative sum runs in the input dtype); shift invariance is "
+    "asserted in float32/float64 only",
+    "the resampling loop of sampling(logprobs, mask) is exercised only when all rows are feasible at once with probability "
+    ">= 0.05 per round (it redraws the whole batch)",
 ]
 
 EPS32 = 2.0 ** -23
@@ -79,11 +87,18 @@ def cases(draw, tier="quick"):
     top_p = draw(st.one_of(st.just(0.0), st.sampled_from([0.0, 1.0, 1e-12, 1e-8, 1 - 1e-7, 0.5, 0.9]),
                            st.floats(0.0, 1.0)))
     tanh = draw(st.one_of(st.just(0.0), st.just(0.0), st.floats(0.1, 50.0), st.sampled_from([10.0, 50.0])))
-    dtype = draw(st.sampled_from(["f32", "f32", "f64"]))
+    # half precision (what 16-mixed training hands to the decoding code): values are rounded to the dtype when the tensor is
+    # built; float16 cannot hold the "huge" family
+    dtype = draw(st.sampled_from(["f32", "f32", "f32", "f64", "f64", "f16", "bf16"]))
+    if dtype == "f16" and family == "huge":
+        dtype = "bf16"
     shift = draw(st.integers(-8192, 8192).map(lambda k: k / 8.0))
     tseed = draw(st.integers(0, 2 ** 20))
+    # masking route: the default (mask + mask_logits=True), mask=None with mask_logits=False (L2DPolicy4PPO.act, unmasked
+    # decoding), or a mask that is handed over but switched off by mask_logits=False
+    masking = draw(st.sampled_from(["mask"] * 5 + ["none", "ignored"]))
     return dict(B=B, N=N, family=family, logits=logits, mask=mask, temperature=temperature, top_k=top_k,
-                top_p=top_p, tanh=tanh, dtype=dtype, shift=shift, tseed=tseed)
+                top_p=top_p, tanh=tanh, dtype=dtype, shift=shift, tseed=tseed, masking=masking)
 
 
 # --------------------------------------------------------------------------- oracle
@@ -109,20 +124,38 @@ def execute(case, ctx):
     from rl4co.utils.decoding import DecodingStrategy, Greedy, Sampling, process_logits
     from tensordict import TensorDict
 
-    dt = torch.float32 if case["dtype"] == "f32" else torch.float64
-    logits = torch.tensor(case["logits"], dtype=dt)
-    mask = torch.tensor(case["mask"], dtype=torch.bool)
+    dt = {"f32": torch.float32, "f64": torch.float64, "f16": torch.float16, "bf16": torch.bfloat16}[case["dtype"]]
+    half = dt in (torch.float16, torch.bfloat16)
+    logits = torch.tensor(case["logits"], dtype=torch.float64).to(dt)
+    real_mask = torch.tensor(case["mask"], dtype=torch.bool)
+    masking = case.get("masking", "mask")
+    # with mask_logits=False nothing is masked: the oracle's mask is all-True, whatever mask is handed over
+    mask = real_mask if masking == "mask" else torch.ones_like(real_mask)
     B, N = logits.shape
     T, k, p, tanh = case["temperature"], case["top_k"], case["top_p"], case["tanh"]
-    tol = 1e-5 if dt == torch.float32 else 1e-11
+    eps = {torch.float32: 2.0 ** -23, torch.float64: 2.0 ** -52, torch.float16: 2.0 ** -10, torch.bfloat16: 2.0 ** -7}[dt]
+    tol = 1e-5 if dt == torch.float32 else (1e-11 if dt == torch.float64 else 4 * eps)
     kw = dict(temperature=T, top_p=p, top_k=k, tanh_clipping=tanh)
-    cfg = f"k={'0' if k == 0 else 'k'}|p={'0' if p == 0 else ('1' if p >= 1 else 'p')}"
+    cfg = f"k={'0' if k == 0 else 'k'}|p={'0' if p == 0 else ('1' if p >= 1 else 'p')}" + \
+        ("" if masking == "mask" else "|mask_logits=False") + (f"|{case['dtype']}" if half else "")
+    ctx.event(f"dtype:{case['dtype']}")
+    ctx.event(f"masking:{masking}")
 
     x = _pre(logits, mask, T, tanh)
     if not torch.isfinite(x[mask]).all():
         ctx.exclude("nonfinite_scaled_logits")
         return
-    lp = ctx.guard(process_logits, logits.clone(), mask.clone(), what="process_logits", **kw)
+    if masking == "mask":
+        lp = ctx.guard(process_logits, logits.clone(), mask.clone(), what="process_logits", **kw)
+    else:
+        given = None if masking == "none" else real_mask.clone()
+        lp = ctx.guard(process_logits, logits.clone(), given, what="process_logits|mask_logits=False", mask_logits=False, **kw)
+        lp_all = ctx.guard(process_logits, logits.clone(), mask.clone(), what="process_logits", **kw)
+        ctx.check(lp.shape == lp_all.shape and bool(((lp == lp_all) | (torch.isnan(lp) & torch.isnan(lp_all))).all()),
+                  f"unmasked_differs_from_all_true_mask|{cfg}",
+                  "process_logits(mask_logits=False) differs from the result with an all-True mask",
+                  {"lp": lp, "lp_all_true": lp_all})
+    ctx.check(lp.dtype == dt, f"dtype_changed|{cfg}", f"log-probs come back as {lp.dtype} for {dt} logits")
     z = x.double()
     kept = lp > float("-inf")
 
@@ -159,7 +192,9 @@ def execute(case, ctx):
     q = _ref_logp(z, stage).exp()
     if 0 < p:
         mass = (q * kept).sum(-1)
-        ctx.check(bool((mass >= min(p, 1.0) - 10 * tol).all()), f"topp_mass|{cfg}",
+        # half precision: the filter's own cumulative sum of N probabilities is carried in the input dtype
+        mtol = 10 * tol + (N * eps if half else 0.0)
+        ctx.check(bool((mass >= min(p, 1.0) - mtol).all()), f"topp_mass|{cfg}",
                   f"kept mass {mass.tolist()} below top_p={p}")
     # 6. kept entries renormalised proportionally
     ref = _ref_logp(z, kept)
@@ -185,8 +220,8 @@ def execute(case, ctx):
     ctx.sample({k_: case[k_] for k_ in ("B", "N", "family", "temperature", "top_k", "top_p", "tanh", "dtype")}
                | {"logits_row0": case["logits"][0][:8], "mask_row0": case["mask"][0][:8]})
 
-    # 7. shift invariance (tanh off)
-    if tanh == 0:
+    # 7. shift invariance (tanh off; float32 / float64 only: a half-precision logit cannot absorb the shift exactly)
+    if tanh == 0 and not half and masking == "mask":
         c = case["shift"]
         exact = case["family"] in ("lattice", "ties") and math.log2(T) == int(math.log2(T))
         if exact:
@@ -201,7 +236,6 @@ def execute(case, ctx):
                             temperature=T, top_p=0.0, top_k=0, tanh_clipping=0)
             lp1 = ctx.guard(process_logits, logits.clone(), mask.clone(), what="process_logits",
                             temperature=T, top_p=0.0, top_k=0, tanh_clipping=0)
-            eps = EPS32 if dt == torch.float32 else 2.0 ** -52
             slack = 8 * eps * (abs(c) + float(logits.abs().max())) / T
             d = (lp2 - lp1)[mask].abs().double()
             okb = tol * (1 + lp1[mask].abs().double()) + slack
@@ -209,24 +243,40 @@ def execute(case, ctx):
                       {"maxdiff": d.max()})
             ctx.event("shift_float_checked")
 
-    # 8. greedy returns a maximiser
-    g = ctx.guard(DecodingStrategy.greedy, lp.clone(), mask.clone(), what="greedy")
+    # 8. greedy returns a maximiser (mask=None on the unmasked routes, as L2DPolicy4PPO.act calls it)
+    sel_mask = (lambda r=1: mask.repeat(r, 1)) if masking == "mask" else (lambda r=1: None)
+    g = ctx.guard(DecodingStrategy.greedy, lp.clone(), sel_mask(), what="greedy")
     gv = lp.gather(1, g.unsqueeze(-1)).squeeze(-1)
     ctx.check(bool((gv == lp.max(-1).values).all()) and bool(mask.gather(1, g.unsqueeze(-1)).all()),
               "greedy_not_max", "greedy did not return a feasible maximiser", {"selected": g})
     # 9. sampling only returns positive-probability feasible actions
     R = 16
     torch.manual_seed(case["tseed"])
-    s = ctx.guard(DecodingStrategy.sampling, lp.repeat(R, 1), mask.repeat(R, 1), what="sampling")
+    s = ctx.guard(DecodingStrategy.sampling, lp.repeat(R, 1), sel_mask(R), what="sampling")
     sv = lp.repeat(R, 1).gather(1, s.unsqueeze(-1)).squeeze(-1)
     ctx.check(bool((sv > -math.inf).all()) and bool(mask.repeat(R, 1).gather(1, s.unsqueeze(-1)).all()),
               "sampling_infeasible", "sampling returned a zero-probability or masked action", {"selected": s})
+    # 9b. sampling(log-probs that put mass on masked entries, mask): the documented resampling loop must still hand back
+    # feasible actions only.  It redraws the whole batch until every row is feasible at once: asserted when that has
+    # probability >= 0.05 per round (product of the rows' feasible masses), otherwise the loop is not expected to end
+    if masking != "mask" and not bool(real_mask.all()):
+        feas = (lp.double().exp() * real_mask).sum(-1)
+        if float(feas.prod()) >= 0.05:
+            torch.manual_seed(case["tseed"] + 2)
+            s2 = ctx.guard(DecodingStrategy.sampling, lp.clone(), real_mask.clone(), what="sampling|resampling_loop")
+            ctx.check(bool(real_mask.gather(1, s2.unsqueeze(-1)).all()), f"resampling_returns_infeasible|{cfg}",
+                      "sampling(unmasked log-probs, mask) returned a masked action", {"selected": s2})
+            ctx.event("resampling_loop_checked")
+            ctx.nontriv({"c": case["logits"], "m": case["mask"], "k": "resample"})
+        else:
+            ctx.event("resampling_loop_skipped(feasible mass too small)")
     # 10. full strategy step never emits a masked action and stores its log-prob
     for cls in (Greedy, Sampling):
-        strat = cls(**{**kw})
+        strat = cls(**{**kw}) if masking == "mask" else cls(mask_logits=False, **kw)
         td = TensorDict({}, batch_size=[B])
         torch.manual_seed(case["tseed"] + 1)
-        td = ctx.guard(strat.step, logits.clone(), mask.clone(), td, what=f"{cls.__name__}.step")
+        # (with mask_logits=False the strategy drops whatever mask it is given)
+        td = ctx.guard(strat.step, logits.clone(), real_mask.clone(), td, what=f"{cls.__name__}.step")
         a = td["action"]
         ctx.check(bool(mask.gather(1, a.unsqueeze(-1)).all()), f"step_infeasible|{cls.__name__}",
                   "strategy.step emitted a masked action", {"action": a})
